@@ -116,7 +116,7 @@ class CallMixin:
     def repo_callee(self, fn, selfv):
         c = self.contracts.get(fn.key)
         if c is None: raise Undecided('call to %s which has neither a contract nor an inline declaration' % fn.key)
-        if c.get('inline'): return ('inline', fn, selfv)
+        if c.get('inline') or fn.key in getattr(self, 'force_inline', ()): return ('inline', fn, selfv)      # force_inline: a per-function option (composition checks)
         if c.get('pure_text'): return ('model', lambda ex, p, args, kwargs, e, _n=fn.qualname: VStr([('pure', _n, args)]))
         return ('contract', fn, c, selfv)
 
